@@ -217,6 +217,17 @@ int main()
         std::cout << "R terms";
         for (int i = 1; i <= n; i++) std::cout << " " << vp::hex(IS->test_abs_term(i));
         std::cout << "\n";
+        // the rows of "Outlying absolute terms" (results/text/outlying_abs_terms.h: returns when the gate is
+        // closed, else one row per i with test_abs_term(i) != 0: i, ptr_obs(i)), printed by gama-local right
+        // before remove_huge_abs_terms()
+        std::cout << "R rows";
+        if (IS->huge_abs_terms())
+          for (int i = 1; i <= C->observations_count(); i++) {
+            const Observation* pm = IS->ptr_obs(i);
+            if (IS->test_abs_term(i))
+              std::cout << " " << i << ":" << type_of(pm) << ":" << pid(pm->from()) << ":" << pid(pm->to());
+          }
+        std::cout << "\n";
         IS->remove_huge_abs_terms();
         obs_flags();
         if (diagonal) {
